@@ -20,7 +20,8 @@ THEOREMS = ['C04_init_world_inv', 'C04_step_local', 'C04_step_noninterference', 
             'C04_same_engine_slots_K', 'C04_slots_alone_K', 'C04_step_footprint_agree', 'C04_step_footprint_writes',
             'C04_same_engine_slots', 'C04_slots_alone', 'C04_slots_none', 'C04_slots_start', 'C04_reach_invariant', 'C04_reach_sinv',
             'C04_disjoint_queries_alone_K', 'C04_disjoint_queries_alone', 'C04_disjoint_queries_alone_writes_refuted',
-            'C04_world_disjoint_queries_alone_K', 'C04_world_disjoint_queries_alone', 'C04_unify_frame']
+            'C04_world_disjoint_queries_alone_K', 'C04_world_disjoint_queries_alone', 'C04_unify_frame',
+            'C04_generator_step_frame', 'C04_meta_steps_silent']
 RULE = ('2-3 engines, histories of 6-24 operations each over {atom, assert_fact/assertz/asserta (3 API variants), retract/'
         'retractall (4 API variants), register_function (fixed/variadic), load_script_from_string of compiled Prolog '
         '(overwrite and chained; the same text in several engines, and different texts defining the same names; in half of the '
@@ -31,6 +32,9 @@ RULE = ('2-3 engines, histories of 6-24 operations each over {atom, assert_fact/
         '(shared inside one fact, partially bound) under one key, optionally reached through a rule; 3-6 generator slots on that '
         'predicate opened / advanced / finished in non-nested order (mostly oldest first: closed, dropped, replaced, exhausted '
         'while a younger one stays suspended, then a new one), query patterns from a small pool of constants (clash / compatible). '
+        'Family MB (40 quick / 400 thorough): the mixed histories in which 25-55 % of the body goals are X \\= Y, once(G), call(G, A..), '
+        'findall(T, G, L) (G over fact / earlier rule predicates, a database builtin, or nested once/call/findall; through a variable; rarely not '
+        'callable) and 22 % of the queries are started on these builtins themselves. '
         'Family SH: the SAME Python objects given to 2-3 engines of one run - function objects (*args / (first, *rest) / fixed '
         'signature; def, bound method, callable instance, functools.wraps, partial) registered under different styles (arity None / -1 / k), '
         'tuples of argument term objects asserted through the three assert APIs, one script string - with clear() at any moment and '
@@ -47,7 +51,7 @@ TRUSTED_BASE = [
     'no axioms: all C04 theorems are closed under the global context',
     'hand-written model Engine/World.v of YP.__init__/clear/atom/assert_fact/asserta/assertz/retract/retractall/'
     'register_function/load_script_from_string/query/match_dynamic/Answer.match, of suspended query generators and of the '
-    'builtins asserta/assertz/retract/retractall called from clause bodies; '
+    'builtins asserta/assertz/retract/retractall and \\=, call/N, once, findall (builtin_neq, YP.call, YP.once, YP.findall) called from clause bodies; '
     'tied to /repo by this differential run (not by translation)',
     'compiled clauses are modelled as (head arguments, list of goals): the translation of Prolog text to Python text is '
     'the business of C01/C11; here the compiler is only used to produce the scripts that are loaded',
@@ -171,6 +175,8 @@ def pl_term(t):
 def pl_goal(g):
     if g[0] == '=':
         return '%s = %s' % (pl_term(g[1][0]), pl_term(g[1][1]))
+    if g[0] == '\\=' and len(g[1]) == 2:
+        return '%s \\= %s' % (pl_term(g[1][0]), pl_term(g[1][1]))
     if not g[1]:
         return g[0]
     return '%s(%s)' % (g[0], ','.join(pl_term(a) for a in g[1]))
@@ -551,6 +557,26 @@ def slot_footprints(case, hist):
             if k is not None:
                 T.add(k)
                 W.add(k)
+        # the meta-call builtins run a goal that is given as a term (World.metastep): its footprint is that of the goal;
+        # a goal that is a variable at compile time is not known statically
+        meta = None
+        if name == '\\=' and len(args) == 2:
+            goal('=', args, T, W, seen)
+        elif name == 'once' and len(args) == 1:
+            meta = (args[0], [])
+        elif name == 'findall' and len(args) == 3:
+            meta = (args[1], [])
+        elif name == 'call' and args:
+            meta = (args[0], list(args[1:]))
+        if meta:
+            t, extra = meta
+            if t[0] == 'f':
+                goal(t[1], list(t[2]) + extra, T, W, seen)
+            elif t[0] == 'a':
+                goal(t[1], extra, T, W, seen)
+            elif t[0] == 'v':
+                T.add('*')
+                W.add('*')
         if key in seen:
             return
         seen.add(key)
@@ -898,11 +924,63 @@ def gen_db_goal(rng, vs, body):
     else:
         body.append([b, [t]])
 
-def gen_script(rng, writes=False):
+META_BUILTINS = ('\\=', 'once', 'call', 'findall')
+
+def gen_callable(rng, vs, cands, writes, depth=0):
+    """a term that is run as a goal by once / call / findall: name(args) over a fact predicate or an earlier rule predicate,
+    (writes) a database builtin on a literal, or one of the meta-call builtins again"""
+    r = rng.random()
+    if depth < 1 and r < 0.15:
+        k = rng.choice(['once', 'call', 'findall'])
+        g = gen_callable(rng, vs, cands, writes, depth + 1)
+        if k == 'findall':
+            return ['f', 'findall', [rand_open(rng, vs, 1, 0.7, py=False), g, ['v', rng.choice(vs)]]]
+        return ['f', k, [g]]
+    if writes and r < 0.35:
+        b = rng.choice(['assertz', 'asserta', 'retract', 'retract', 'retractall'])
+        name, ar = rng.choice(FACT_PREDS)
+        t = ['f', name, [rand_open(rng, vs, 1, 0.65, py=False) for _ in range(ar)]] if ar else ['a', name]
+        return ['f', b, [t]]
+    gn, ga = rng.choice(cands)
+    return ['f', gn, [rand_open(rng, vs, 1, 0.75, py=False) for _ in range(ga)]] if ga else ['a', gn]
+
+def gen_meta_goal(rng, vs, body, cands, writes, py=False, direct=False):
+    """X \\= Y, once(G), call(G, A..) (G with its last arguments split off, or a variable bound by a preceding '='),
+    findall(T, G, L); rarely a goal that is not callable (an unbound variable, a number: YP.call raises)"""
+    k = rng.choice(['\\=', 'once', 'once', 'call', 'call', 'findall', 'findall', 'findall'])
+    if k == '\\=':
+        body.append(['\\=', [rand_open(rng, vs, 1, 0.7, py=py), rand_open(rng, vs, 1, 0.5, py=py)]])
+        return
+    g = gen_callable(rng, vs, cands, writes)
+    r = 1.0 if direct else rng.random()
+    if r < 0.12:
+        v = ['v', rng.choice(vs)]
+        body.append(['=', [v, g]])
+        g = v
+    elif r < 0.135:
+        g = ['v', rng.choice(vs)]
+    elif r < 0.145:
+        g = ['i', 7]
+    if k == 'once':
+        body.append(['once', [g]])
+    elif k == 'call':
+        extra = []
+        if g[0] == 'f' and g[2] and rng.random() < 0.6:
+            j = rng.randrange(1, len(g[2]) + 1)
+            extra = g[2][len(g[2]) - j:]
+            g = ['f', g[1], g[2][:len(g[2]) - j]] if len(g[2]) > j else ['a', g[1]]
+        body.append(['call', [g] + extra])
+    else:
+        q = rng.random()
+        bag = ['v', rng.choice(vs)] if q < 0.8 else ['a', '[]'] if q < 0.87 else terms.mklist([rand_open(rng, vs, 1, 0.8, py=py)], ['v', rng.choice(vs)])
+        body.append(['findall', [rand_open(rng, vs, 1, 0.75, py=py), g, bag]])
+
+def gen_script(rng, writes=False, meta=False):
     """a few rule predicates; bodies call fact predicates, '=' and earlier rule predicates, and (writes) the database
-    builtins asserta / assertz / retract / retractall"""
+    builtins asserta / assertz / retract / retractall, and (meta) the meta-call builtins \\=, once, call/N, findall"""
     preds = []
     pw = rng.choice([0.15, 0.3, 0.45]) if writes else 0.0
+    pm = rng.choice([0.25, 0.4, 0.55]) if meta else 0.0
     k = rng.choice([1, 2, 2, 3, 4])
     chosen = sorted(rng.sample(range(len(RULE_PREDS)), k))
     for idx in chosen:
@@ -917,6 +995,8 @@ def gen_script(rng, writes=False):
                 r = rng.random()
                 if rng.random() < pw:
                     gen_db_goal(rng, vs, body)
+                elif meta and rng.random() < pm:
+                    gen_meta_goal(rng, vs, body, list(PURE_PREDS) + [RULE_PREDS[j] for j in range(idx)], writes)
                 elif r < 0.15:
                     body.append(['=', [rand_open(rng, vs, 1, 0.6, py=False), rand_open(rng, vs, 1, 0.5, py=False)]])
                 else:
@@ -953,6 +1033,12 @@ def gen_history(rng, case, eid, nops, base_facts):
             vs = fresh(max(1, ar))
             t = ['f', name, [rand_open(rng, vs, 1, 0.7) for _ in range(ar)]] if ar else ['a', name]
             return b, [t], vs
+        if case.get('meta') and rng.random() < 0.22:
+            # a meta-call builtin as a query of its own (findall runs its goal to exhaustion inside one next())
+            vs = fresh(2)
+            body = []
+            gen_meta_goal(rng, vs, body, (have or []) + list(FACT_PREDS) + RULE_PREDS, case.get('writes'), py=True, direct=True)
+            return body[-1][0], body[-1][1], vs
         if have and rng.random() < 0.5:
             name, ar = rng.choice(have)
         else:
@@ -1003,6 +1089,8 @@ def gen_history(rng, case, eid, nops, base_facts):
             ops.append(['start', q, name, args])
             live[q] = vs
             est[q] = nfacts.get((name, len(args)), 0) + (2 if name in rule_names else 0)
+            if name in META_BUILTINS:
+                est[q] = 1 if name != 'call' else 2
             if name in DB_BUILTINS:
                 t = args[0]
                 key = (t[1], len(t[2]) if t[0] == 'f' else 0)
@@ -1043,11 +1131,14 @@ def gen_schedule(rng, lens):
         rem[cur] -= 1
     return sched
 
-def gen_case(rng, big=False):
+def gen_case(rng, big=False, meta=False):
     neng = rng.choice([2, 2, 3])
     writes = rng.random() < 0.5
     case = {'neng': neng, 'writes': writes,
-            'scripts': [gen_script(rng, writes and rng.random() < 0.8) for _ in range(rng.choice([1, 2, 2, 3]))]}
+            'scripts': [gen_script(rng, writes and rng.random() < 0.8, meta) for _ in range(rng.choice([1, 2, 2, 3]))]}
+    if meta:
+        case['meta'] = True
+        case['family'] = 'mb'
     shared_keys = rng.sample(FACT_PREDS, rng.choice([2, 3, 4]))
     hist = []
     for e in range(neng):
@@ -1547,7 +1638,7 @@ def shared_profile(case):
 
 def gen(rng, tier):
     quick = tier == 'quick'
-    n = 225 if quick else 2600
+    n = 185 if quick else 2200
     cases = [gen_case(rng, big=(not quick and i % 10 == 0)) for i in range(n)]
     # the new families get random generators of their own, so that the ordinary cases of a seed stay what they were
     r2 = random.Random(rng.random())
@@ -1564,6 +1655,10 @@ def gen(rng, tier):
     if quick:
         # one case of medium depth, still inside what the Coq model evaluates in seconds
         mini.append(gen_sc_case(r2, 5, 8, 24, True))
+    # family MB (own random stream): the mixed histories with rule bodies and queries that use \\=, once, call/N, findall
+    r5 = random.Random(r4.random())
+    mb = [gen_case(r5, big=(not quick and i % 10 == 0), meta=True) for i in range(40 if quick else 400)]
+    sh = sh + mb
     # the expensive cases are spread over the list (the implementation runs in chunks of consecutive cases)
     extra = nl + mini + sh
     r3.shuffle(extra)
@@ -1670,6 +1765,32 @@ def builtin_corpus():
           ['start', 2, 'p', [f('f', v(2)), a('c')]], ['next', 2], ['start', 0, 'p', [v(3), v(4)]], ['next', 0], ['peek', [v(1), v(2), v(3)]],
           ['next', 1], ['next', 2], ['next', 1], ['drain', 0], ['next', 2]]
     L.append({'neng': 2, 'family': 'nl', 'scripts': [[['t', 1, [[[v(0)], [['p', [v(0), v(1)]]]]]]]], 'hist': [h0, h1], 'sched': rr(h0, h1)})
+    # the meta-call builtins (Coq: C04_nonvacuous_meta, the same schedule): u(L) :- findall(s(X,Y), p(X), L).  f(X) :- once(p(X)).
+    # n(X) :- p(X), X \\= a.  c(X) :- G = p, call(G, X).  loaded into both engines over different p/1
+    mscript = [['u', 1, [[[v(0)], [['findall', [f('s', v(1), v(2)), f('p', v(1)), v(0)]]]]]],
+               ['f', 1, [[[v(0)], [['once', [f('p', v(0))]]]]]],
+               ['n', 1, [[[v(0)], [['p', [v(0)]], ['\\=', [v(0), a('a')]]]]]],
+               ['c', 1, [[[v(0)], [['=', [v(1), a('p')]], ['call', [v(1), v(0)]]]]]]]
+    h0 = [['assert', True, 'p', [a('a')], 0], ['assert', True, 'p', [a('b')], 1], ['load', True, 0], ['start', 0, 'c', [v(0)]], ['next', 0],
+          ['start', 1, 'u', [v(1)]], ['next', 1], ['start', 2, 'f', [v(2)]], ['next', 2], ['next', 2], ['next', 0], ['next', 0],
+          ['start', 3, 'n', [v(3)]], ['drain', 3], ['atom', '=']]
+    h1 = [['assert', True, 'p', [a('c')], 0], ['load', True, 0], ['start', 0, 'n', [v(0)]], ['next', 0], ['start', 1, 'u', [v(1)]], ['next', 1], ['next', 0]]
+    L.append({'neng': 2, 'family': 'mb', 'meta': True, 'scripts': [mscript], 'hist': [h0, h1],
+              'sched': [0, 1, 0, 0, 1, 0, 1, 0, 1, 0, 0, 1, 1, 0, 0, 0, 0, 1, 0, 0, 0, 0]})
+    # writes inside findall / once while a reader of the key is suspended; a user definition of '=' seen by \\= ;
+    # findall and once as queries of their own; nested findall; the bag partially bound
+    mscript2 = [['t', 1, [[[v(0)], [['findall', [v(1), f('retract', f('q', v(1))), v(0)]], ['once', [f('assertz', f('q', a('n')))]]]]]],
+                ['s', 2, [[[v(0), v(1)], [['findall', [f('g', v(2), v(3)), f('findall', v(4), f('p', v(4)), v(3)), v(0)]],
+                                          ['findall', [v(5), f('once', f('p', v(5))), terms.mklist([v(1)], v(6))]]]]]]]
+    h0 = [['assert', True, 'q', [a('a')], 0], ['assert', True, 'q', [a('b')], 0], ['assert', True, 'p', [a('x')], 0], ['assert', True, 'p', [a('y')], 0],
+          ['load', True, 0], ['start', 0, 'q', [v(0)]], ['next', 0], ['start', 1, 't', [v(1)]], ['next', 1], ['next', 0], ['next', 0],
+          ['start', 2, 's', [v(2), v(3)]], ['next', 2], ['peek', [v(2), v(3)]], ['next', 2],
+          ['start', 1, 'findall', [f('f', v(4), v(5)), f('p', v(4)), v(6)]], ['next', 1], ['peek', [v(4), v(6)]],
+          ['start', 2, 'q', [v(7)]], ['drain', 2]]
+    h1 = [['assert', True, 'p', [a('x')], 0], ['start', 0, '\\=', [a('a'), a('b')]], ['next', 0], ['assert', True, '=', [a('a'), a('b')], 0],
+          ['start', 1, '\\=', [a('a'), a('b')]], ['next', 1], ['next', 0], ['start', 2, 'once', [f('p', v(0))]], ['next', 2], ['peek', [v(0)]], ['next', 2],
+          ['start', 2, 'call', [a('p'), v(1)]], ['drain', 2]]
+    L.append({'neng': 2, 'family': 'mb', 'meta': True, 'writes': True, 'scripts': [mscript2], 'hist': [h0, h1], 'sched': rr(h0, h1)})
     return L
 
 # ------------------------------------------------------------------ reporting
@@ -1808,6 +1929,7 @@ def distribution(cases, obs):
          'raised': 0, 'scripts': {}, 'same_engine_oracle_runs': 0, 'same_engine_oracle_steps': 0,
          'model_not_comparable': MODEL_SKIPPED[0], 'model_cyclic_match_skipped': MODEL_CYCLIC[0],
          'cases_with_writing_bodies_loaded': 0, 'db_goals_in_loaded_bodies': 0, 'queries_on_db_builtins': 0,
+         'mb_meta_goals_in_loaded_bodies': {}, 'mb_queries_on_meta_builtins': {}, 'mb_cases_with_meta_bodies_loaded': 0,
          'families': {}, 'model_by_family[compared,cyclic,fuel]': MODEL_BY_FAMILY,
          'nl_histories_with_nonlifo_restart_on_one_predicate': 0, 'nl_nonlifo_events': 0, 'nl_facts_with_variables': 0,
          'sh_function_objects_registered_on_several_engines': 0, 'sh_of_these_under_different_styles': 0,
@@ -1840,6 +1962,25 @@ def distribution(cases, obs):
             if isinstance(o, dict) and any(x[0] == 'raised' for run in o['interleaved'] for x in run):
                 # an exception in a scale case (e.g. RecursionError of the harness' own stack) would switch the oracle off
                 d['sc_cases_with_an_exception'] = d.get('sc_cases_with_an_exception', 0) + 1
+        def _meta_count(t, acc):
+            if t[0] == 'f':
+                if t[1] in META_BUILTINS:
+                    acc[t[1]] = acc.get(t[1], 0) + 1
+                for a in t[2]:
+                    _meta_count(a, acc)
+        nm = 0
+        for h in c['hist']:
+            for op in h:
+                if op[0] == 'load':
+                    for _, _, cls in c['scripts'][op[2]]:
+                        for _, body in cls:
+                            for g in body:
+                                before = sum(d['mb_meta_goals_in_loaded_bodies'].values())
+                                _meta_count(['f', g[0], g[1]], d['mb_meta_goals_in_loaded_bodies'])
+                                nm += sum(d['mb_meta_goals_in_loaded_bodies'].values()) - before
+                if op[0] == 'start' and op[2] in META_BUILTINS:
+                    d['mb_queries_on_meta_builtins'][op[2]] = d['mb_queries_on_meta_builtins'].get(op[2], 0) + 1
+        d['mb_cases_with_meta_bodies_loaded'] += 1 if nm else 0
         nw = 0
         for h in c['hist']:
             for op in h:
